@@ -215,6 +215,10 @@ Record tables_ok (w : xwr) : Prop := {
   tk_vals : Forall val_ok (x_vals w)
 }.
 
+(* NOTE (session 3): the hypotheses HK (for ALL k) and HKsmall (for ALL k) of this section are jointly unsatisfiable
+   (they make bsK an injection of N into [0, 2^48)), so the lemmas of this section that use both hold vacuously.
+   They are no longer cited by Properties_C01.v: the satisfiable, relativised versions are in coq/ImgXattr/CodecRel.v
+   (xattr_rt_rel).  The section is kept because its hypothesis-free parts are used elsewhere. *)
 Section Codec.
   Variables (bsK bsT : N -> N) (bidxK bidxT : N -> option N).
   Hypothesis HK : forall k, bidxK (bsK k) = Some k.
